@@ -52,7 +52,7 @@ SCORES = ['0', '0.5', '1', '2', '1e9']
 
 
 def plan(tier):
-    out = []
+    out = [('upstream', 16)]
     for src, (_fn, fams) in SOURCES.items():
         for fam in fams:
             out.append((f'{src}:{fam}', _PER[tier][src]))
@@ -85,7 +85,43 @@ def classify(rule, msg, deck):
     return None
 
 
+def run_upstream(case, ctx):
+    '''The upstream example decks with their own converter flags plus
+    random options.'''
+    from ..core import Outcome
+    from .c13 import upstream_decks
+    out = Outcome()
+    structures = []
+    for k, (name, text, opts) in enumerate(upstream_decks()):
+        if k % 16 != case.index:
+            continue
+        extra = random_options(case.rng) if case.tier == 'thorough' or \
+            case.rng.random() < 0.5 else []
+        run_ = ctx.convert(text, opts + extra)
+        if not run_.ok:
+            out.counters['raised_not_judged'] += 1
+            continue
+        t4, probs = ctx.parse(run_)
+        out.judged += len(t4.volus) + len(t4.surfs)
+        out.counters['volu_lines'] += len(t4.volus)
+        out.counters['surf_lines'] += len(t4.surfs)
+        out.counters['upstream_files'] += 1
+        structures.append(f'{name}:{extra}')
+        seen = set()
+        for rule, msg in probs:
+            if rule not in seen:
+                seen.add(rule)
+                out.violation(rule, f'{name} {opts + extra}: {msg}',
+                              options=opts + extra)
+    out.structures = structures
+    out.nontrivial = bool(structures)
+    out.sample = {'family': 'upstream', 'files': structures[:3]}
+    return out
+
+
 def run(case, ctx):
+    if case.family == 'upstream':
+        return run_upstream(case, ctx)
     from ..core import Outcome
     out = Outcome()
     deck = build(case)
